@@ -44,6 +44,8 @@ Class(c, D) == IF c.op = "Convert" THEN ShOf(D[c.src]) \o ShOf(D[c.d]) \o c.copy
                \* without ("e") the full-resolution chunks
                ELSE IF c.op = "AllInOne"
                     THEN (IF D[c.d].chunks[1] = "absent" THEN "e" ELSE "f")
+               \* generate-scales-info: the destination has ("i") / has no ("n") info afterwards
+               ELSE IF c.op = "GenScales" THEN (IF D[c.d].info.n # 0 THEN "i" ELSE "n")
                ELSE "-"
 
 GenInit == Init /\ hist = << >> /\ exits = << >> /\ last = <<"-", 0, FALSE, "-">>
